@@ -256,6 +256,23 @@ def unchecked_rule(ctx, w, types, rule, floor=10, skip=()):
                                                               "alphanumerics): within every identifier grammar that has one, far below 255 bytes")
                     elif "_priv_const_new" in fn["path"]:
                         ctx.ok(rule, key + ":const-new", where, "private constructor behind the compile-time validating macro")
+                    elif pair_ok and target in ("RoomId", "RoomAliasId") and pair_ok[0] == "RoomOrAliasId":
+                        # narrowing conversion: re-verified, not only reviewed - on every path the constructor of `target` is reached only under
+                        # the variant test that says the text is a `target`
+                        dexv = D.Dex(w.lookup, adt_discr=w.adt_discr, inline=lambda n_: "{closure" in n_, effects=lambda n_: n_.rsplit("::", 1)[-1] in UNCHECKED)
+                        badv = []
+                        try:
+                            for p_ in dexv.paths(fn, [D.sym(f"a{i}") for i in range(fn["body"]["argc"])]):
+                                tv = U.true_variants(p_)
+                                var = {v_ for k_, v_ in tv.items() if re.search(r"RoomOrAliasId::variant\(", k_)}
+                                for e_ in p_.effects:
+                                    if short_ty(e_[0].rsplit("::", 1)[0]) == target and var != {target}:
+                                        badv.append(sorted(var) or ["no variant test"])
+                        except D.Unrecognised as ex:
+                            badv.append([str(ex)[:80]])
+                        ctx.check(not badv, rule, key + f":conversion:{pair_ok[0]}", where, ok_msg=CONVERSIONS_OK[f"{target}<-{pair_ok[0]}"] + " [re-verified on every path]",
+                                  bad_msg=f"{fn['path']} builds a {target} from a RoomOrAliasId on a path where the variant test says {badv[:2]}: the text has the other "
+                                          f"sigil, so an identifier is built that {target}::parse rejects (and whose accessors look for a separator that need not exist)")
                     elif pair_ok:
                         ctx.ok(rule, key + f":conversion:{pair_ok[0]}", where, CONVERSIONS_OK.get(f"{target}<-{pair_ok[0]}", "same type"))
                     else:
